@@ -1498,6 +1498,218 @@ def guard_values(cond, path, src, scopes=(), domain=range(256)):
     return eval_set(expr, v, src, scopes=scopes, domain=domain)
 
 
+# ---- named constants (DESIGN.md §13 round 3) --------------------------------------------------------------------------------
+
+def _const_defs(text):
+    """[(name, start of the item, end (after `;`), initialiser text, (scope start, scope end))] of every `const` / `static`
+    NAME: T = init; in text — file level, impl level (scope: the file) or local to a block (scope: that block)"""
+    out = []
+    for m in re.finditer(r"\b(?:const|static)\s+(?:mut\s+)?([A-Z][A-Z0-9_]*)\s*:", text):
+        if skip_inside_literal_fast(text, m.start()):
+            continue
+        # the type ends at the top-level `=`
+        i, depth, n = m.end(), 0, len(text)
+        while i < n:
+            k = skip_literal(text, i)
+            if k is not None:
+                i = k
+                continue
+            c = text[i]
+            if c in "([{<":
+                depth += 1
+            elif c in ")]}>" and not (c == ">" and text[i - 1] in "-="):
+                depth -= 1
+            elif c == "=" and depth <= 0 and text[i + 1] != "=":
+                break
+            elif c == ";" and depth <= 0:
+                i = -1
+                break
+            i += 1
+        if i < 0 or i >= n:
+            continue
+        j, depth = i + 1, 0
+        while j < n:
+            k = skip_literal(text, j)
+            if k is not None:
+                j = k
+                continue
+            if text[j] in OPEN:
+                depth += 1
+            elif text[j] in CLOSE:
+                depth -= 1
+            elif text[j] == ";" and depth == 0:
+                break
+            j += 1
+        init = text[i + 1:j].strip()
+        a, b = enclosing_block(text, m.start())
+        if (a, b) != (0, len(text)):
+            head = text[max(0, a - 300):a - 1]
+            head = head[max(head.rfind(";"), head.rfind("}")) + 1:]
+            if re.search(r"\b(impl|trait|mod)\b", head) and not re.search(r"\bfn\b", head):
+                a, b = 0, len(text)
+        out.append((m.group(1), m.start(), j + 1, init, (a, b)))
+    return out
+
+
+_LIT_POS_CACHE = {}
+
+
+def skip_inside_literal_fast(text, pos):
+    """is pos inside a string / char literal? (the literal spans of a text are computed once)"""
+    key = id(text), len(text)
+    spans = _LIT_POS_CACHE.get(key)
+    if spans is None or spans[0] is not text:
+        sp, i, n = [], 0, len(text)
+        while i < n:
+            k = skip_literal(text, i)
+            if k is not None:
+                sp.append((i, k))
+                i = k
+            else:
+                i += 1
+        spans = (text, sp)
+        _LIT_POS_CACHE.clear()
+        _LIT_POS_CACHE[key] = spans
+    for a, b in spans[1]:
+        if a < pos < b:
+            return True
+        if a > pos:
+            break
+    return False
+
+
+def _render_const(init, src):
+    """the canonical literal text of a constant's initialiser, or None when it is not a compile-time literal we understand:
+    integers (any arithmetic on literals / other resolved constants, `X.len()`, `size_of::<T>()`, casts, indexing and slicing of
+    byte constants) -> decimal; byte strings -> the string literal if the initialiser is one, else `[d, d, …]`; tables made of
+    literals only (`&[("BPC", "BitsPerComponent"), …]`) -> their text"""
+    e = init.strip()
+    try:
+        o = rsx.run(_self_module(), e, {}, src, is_expr=True, depth=2)
+        v = o.value if o.how == "value" and not o.effects else None
+    except (rsx.Unknown, rsx.Leave, KeyError, ValueError, IndexError, RecursionError):
+        v = None
+    if isinstance(v, bool):
+        return "true" if v else "false"
+    if isinstance(v, int):
+        return str(v)
+    if isinstance(v, tuple) and v and v[0] == "Bytes":
+        core = re.sub(r"^[&*]\s*", "", e).strip()
+        if re.fullmatch(r'b?"(?:\\.|[^"\\])*"', core, flags=re.S):
+            return core
+        return "[" + ", ".join(str(x) for x in v[1]) + "]"
+    # a table of literals: nothing but literals, brackets, commas, `&`
+    rest, i, out = e, 0, []
+    while i < len(rest):
+        k = skip_literal(rest, i)
+        if k is not None:
+            i = k
+            continue
+        out.append(rest[i])
+        i += 1
+    if re.fullmatch(r"(?:[\s&\[\](),;]|" + BYTE + r"|true|false)*", "".join(out)) and re.search(r"[\[(]", e):
+        return e
+    return None
+
+
+def literal_spans(text):
+    out, i, n = [], 0, len(text)
+    while i < n:
+        k = skip_literal(text, i)
+        if k is not None:
+            out.append((i, k))
+            i = k
+        else:
+            i += 1
+    return out
+
+
+def propagate_consts(text):
+    """Every use of a named constant whose value is a compile-time literal is replaced by that literal (scope-aware: a constant
+    local to a fn body is replaced in that body only and shadows an outer one; `Self::NAME` / `Type::NAME` are uses too;
+    constants that depend on other constants are resolved in rounds).  The definitions stay where they are (with the
+    constants inside THEM resolved).  After this, a magic value and the same value hoisted into a `const` are the same text."""
+    defs = _const_defs(text)
+    if not defs:
+        return text
+    value = {}                                            # index of def -> literal text
+
+    def visible(i, pos):
+        a, b = defs[i][4]
+        return a <= pos < b
+
+    def lookup(name, pos):
+        """the innermost definition of `name` visible at pos"""
+        best = None
+        for i, d in enumerate(defs):
+            if d[0] == name and visible(i, pos) and (best is None or (d[4][1] - d[4][0]) < (defs[best][4][1] - defs[best][4][0])):
+                best = i
+        return best
+    names = sorted(set(d[0] for d in defs), key=len, reverse=True)
+    name_rx = re.compile(r"(?<![\w])(?:(?:Self|[A-Z]\w*)\s*::\s*)?(" + "|".join(re.escape(n) for n in names) + r")(?!\w)")
+
+    def substitute(fragment, base, skip_def=None):
+        """fragment = text[base:…]: uses of resolved constants replaced"""
+        spans = literal_spans(fragment)
+        out, last, si = [], 0, 0
+        for m in name_rx.finditer(fragment):
+            while si < len(spans) and spans[si][1] <= m.start():
+                si += 1
+            if si < len(spans) and spans[si][0] < m.start() + 1 <= spans[si][1] and spans[si][0] <= m.start():
+                continue
+            i = lookup(m.group(1), base + m.start(1))
+            if i is None or i not in value:
+                continue
+            pos = base + m.start(1)
+            if defs[i][1] <= pos < defs[i][1] + (defs[i][2] - defs[i][1]) and re.match(r"(?:const|static)\s+(?:mut\s+)?" + m.group(1) + r"\s*:", text[defs[i][1]:]) \
+                    and pos < defs[i][1] + text[defs[i][1]:].index(":"):
+                continue                                  # the name in its own definition
+            before = fragment[:m.start()].rstrip()
+            after = fragment[m.end():]
+            if before.endswith(".") and not before.endswith(".."):
+                continue                                  # a field / method of that name
+            if re.match(r"\s*(::|!\s*[\(\[{]|\()", after):
+                continue                                  # a path segment, a macro, a call
+            if re.match(r"\s*:(?!:)", after) and (before.endswith("{") or before.endswith(",")) and m.group(0) == m.group(1):
+                continue                                  # a field label
+            if before.endswith("::") and m.group(0) == m.group(1):
+                continue
+            out.append(fragment[last:m.start()])
+            out.append(value[i])
+            last = m.end()
+        out.append(fragment[last:])
+        return "".join(out)
+    for _ in range(6):
+        progressed = False
+        for i, (name, start, end, init, scope) in enumerate(defs):
+            if i in value:
+                continue
+            init_at = text.index(init, start) if init else start
+            resolved = substitute(init, init_at)
+            if name_rx.search(re.sub(r'"(?:\\.|[^"\\])*"', '""', resolved)) and \
+                    any(lookup(mm.group(1), init_at) is not None for mm in name_rx.finditer(re.sub(r'"(?:\\.|[^"\\])*"', '""', resolved))):
+                continue                                  # still depends on an unresolved constant
+            lit = _render_const(resolved, text)
+            if lit is not None:
+                value[i] = lit
+                progressed = True
+        if not progressed:
+            break
+    if not value:
+        return text
+    return substitute(text, 0)
+
+
+_SOURCE_CACHE = {}
+
+
+def source(rel):
+    """the text the extractors read: comments stripped, named constants propagated"""
+    if rel not in _SOURCE_CACHE:
+        _SOURCE_CACHE[rel] = propagate_consts(strip_comments(read(rel)))
+    return _SOURCE_CACHE[rel]
+
+
 class Gen:
     def __init__(self):
         self.defs = []      # (name, coq type, coq term, anchor)
@@ -1538,7 +1750,7 @@ def ctuples(xs):
 
 def main():
     g = Gen()
-    enc = strip_comments(read("pdf/src/enc.rs"))
+    enc = source("pdf/src/enc.rs")
 
     # ---- enc.rs ------------------------------------------------------------
     def nibble():
